@@ -190,3 +190,14 @@ def position_dispatch(msg0, msg1, t0, t1, has_ref, lat_ref, lon_ref):
             "position routes a TC9-18 pair and a TC20-22 pair to airborne_position"
     else:
         assert o == ("raise", "RuntimeError"), "position rejects every other combination of type codes"
+
+
+@harness("C03", inputs={"m0": HexStr(28), "m1": HexStr(28), "t0": RealRange(0, 4000000000), "t1": RealRange(0, 4000000000)},
+         functions=[D + "airborne_position"], body_of=[D + "airborne_position"], idealised=True)
+def airborne_same_parity_rejected(m0, m1, t0, t1):
+    # last clause of the statement: two frames of the same CPR parity (ME bit 22), whatever else they contain
+    b0 = F.hexbits(m0)
+    b1 = F.hexbits(m1)
+    assume(b0[53] == b1[53])
+    assert outcome(B05.airborne_position, m0, m1, t0, t1) == ("raise", "RuntimeError"), \
+        "two frames of the same parity are rejected with RuntimeError"
